@@ -296,6 +296,44 @@ theorem fromCtyTuple_tie (S : Sched) (etys : List Ty) (cs : List Payload) (T : G
   | cval => simp [GoTy.isCval] at hc
   | _ => shape_simp [fromCtyTuple]
 
+/-! ### `fromCtyObject` (both loops are pinned regions: the tie re-checks the kind dispatch and how the regions are composed) -/
+
+theorem attrDecodes_recS (S : Sched) : ∀ (names : List String) (atys : List Ty) (cs : List Payload) (tags : List String)
+    (tys : List GoTy), attrDecodes (recS S) [] names atys cs tags tys = fromCtyA S [] names atys cs tags tys
+  | [], _, _, _, _ => by simp [attrDecodes, fromCtyA]
+  | _ :: _, [], _, _, _ => by simp [attrDecodes, fromCtyA]
+  | _ :: _, _ :: _, [], _, _ => by simp [attrDecodes, fromCtyA]
+  | k :: names, aty :: atys, c :: cs, tags, tys => by
+    simp only [attrDecodes, fromCtyA, attrDecodes_recS S names atys cs tags tys]
+    cases lookupTag k tags tys <;> simp [recS, fromCtyS, pushMarks]
+
+/-- `fromCtyObject` as written in the source = the object case of the model, for an unmarked object whose payload carries
+the attribute names of its type, into the zero value of every non-pointer target; `S 0` is the order in which the attributes
+of this object are visited, `S.next` the schedule of the objects nested in it -/
+theorem fromCtyObject_tie (S : Sched) (names : List String) (atys : List Ty) (opt : List Bool) (cs : List Payload) (T : GoTy)
+    (hd : T.depth = 0) (hc : T.isCval = false) :
+    er (fromCtyObject (recS S.next) (S 0) ⟨.object names atys opt, .smap names cs⟩ T (zeroVal T)) =
+      er (fromCtyP S [] (.object names atys opt) (.smap names cs) T) := by
+  have hb := base_of_depth0 hd
+  unfold fromCtyP
+  simp only [hb, hc, hd, Bool.false_eq_true, if_false, bne_self_eq_false]
+  cases T with
+  | int w s => cases w <;> cases s <;> shape_simp [fromCtyObject]
+  | float is32 => cases is32 <;> shape_simp [fromCtyObject]
+  | struct tags tys =>
+    shape_simp [fromCtyObject, objectMissingCheck, objectIntoFields, tagView, Payload.marks1, attrDecodes_recS]
+    split
+    · rfl
+    · cases combSched (S 0 names) names (fromCtyA S.next [] names atys cs (effTags tags) tys) <;> rfl
+  | bigInt =>
+    shape_simp [fromCtyObject, objectMissingCheck, objectIntoFields, tagView, missingRequired]
+    split <;> rfl
+  | bigFloat =>
+    shape_simp [fromCtyObject, objectMissingCheck, objectIntoFields, tagView, missingRequired]
+    split <;> rfl
+  | cval => simp [GoTy.isCval] at hc
+  | _ => shape_simp [fromCtyObject]
+
 /-! ### statements about the translated text itself, for ANY recursive decoder -/
 
 /-- the array length test of `fromCtyList` comes before the element loop: whatever `fromCtyValue` does with the members,
